@@ -32,13 +32,22 @@ fn c02_cum_regret_structure_full() {
     kani::cover!(some_pos && r[1] < 0.0, "mixed signs");
     kani::cover!(!some_pos, "no positive regret");
     assert!(!b.is_nan(), "C02 bound: NaN");
-    assert!(b >= 0.0, "C02 bound: negative per-infoset bound (positive part dropped)");
+    assert!(
+        b >= 0.0,
+        "C02 bound: negative per-infoset bound (positive part dropped)"
+    );
     if !some_pos {
-        assert!(b == 0.0, "C02 bound: non-zero bound without positive regret");
+        assert!(
+            b == 0.0,
+            "C02 bound: non-zero bound without positive regret"
+        );
     }
     let sizeable = r[0] >= 1e-200 || r[1] >= 1e-200 || r[2] >= 1e-200;
     if sizeable && it < (1u64 << 40) {
-        assert!(b > 0.0, "C02 bound: zero bound although some regret is positive");
+        assert!(
+            b > 0.0,
+            "C02 bound: zero bound although some regret is positive"
+        );
     }
 }
 
@@ -58,13 +67,19 @@ fn c02_cum_regret_value_ints() {
         }
     }
     kani::cover!(m == 3.0 && it == 7, "max 3 at iteration 7");
-    assert!(near(b, 2.0 * m / it as f64, 1e-12), "C02 bound: per-infoset bound is not 2*max(R,0)/t");
+    assert!(
+        near(b, 2.0 * m / it as f64, 1e-12),
+        "C02 bound: per-infoset bound is not 2*max(R,0)/t"
+    );
     // two-action slice too (n is not hard-wired)
     let mut r2: [f64; 2] = [r[0], r[1]];
     let b2 = p.cum_regret(it as u64, &mut r2[..]);
     let m2 = if r[0] > r[1] { r[0] } else { r[1] };
     let m2 = if m2 > 0.0 { m2 } else { 0.0 };
-    assert!(near(b2, 2.0 * m2 / it as f64, 1e-12), "C02 bound: per-infoset bound is not 2*max(R,0)/t (2 actions)");
+    assert!(
+        near(b2, 2.0 * m2 / it as f64, 1e-12),
+        "C02 bound: per-infoset bound is not 2*max(R,0)/t (2 actions)"
+    );
 }
 
 /// gen_discount: exactly 0, 1/2, 1 at -inf, 0, +inf for every iteration.
@@ -73,10 +88,22 @@ fn c08_gen_discount_special() {
     let it: u64 = kani::any();
     kani::cover!(it == 0, "iteration 0");
     kani::cover!(it == u64::MAX, "huge iteration");
-    assert!(RegretParams::gen_discount(it, f64::NEG_INFINITY) == 0.0, "C08 discount: exponent -inf must give factor 0");
-    assert!(RegretParams::gen_discount(it, 0.0) == 0.5, "C08 discount: exponent 0 must give factor 1/2");
-    assert!(RegretParams::gen_discount(it, -0.0) == 0.5, "C08 discount: exponent -0 must give factor 1/2");
-    assert!(RegretParams::gen_discount(it, f64::INFINITY) == 1.0, "C08 discount: exponent +inf must give factor 1");
+    assert!(
+        RegretParams::gen_discount(it, f64::NEG_INFINITY) == 0.0,
+        "C08 discount: exponent -inf must give factor 0"
+    );
+    assert!(
+        RegretParams::gen_discount(it, 0.0) == 0.5,
+        "C08 discount: exponent 0 must give factor 1/2"
+    );
+    assert!(
+        RegretParams::gen_discount(it, -0.0) == 0.5,
+        "C08 discount: exponent -0 must give factor 1/2"
+    );
+    assert!(
+        RegretParams::gen_discount(it, f64::INFINITY) == 1.0,
+        "C08 discount: exponent +inf must give factor 1"
+    );
 }
 
 /// gen_discount for finite non-zero exponents: never NaN, always in [0,1], whatever the magnitude of
@@ -95,8 +122,14 @@ fn c05_gen_discount_finite_total() {
     let g = RegretParams::gen_discount(it, a);
     kani::cover!(a == 1000.0 && it > 1000, "large exponent, late iteration");
     kani::cover!(a < 0.0, "negative exponent");
-    assert!(!g.is_nan(), "C05 discount: discount factor is NaN for a finite exponent");
-    assert!(g >= 0.0 && g <= 1.0, "C05 discount: discount factor outside [0,1]");
+    assert!(
+        !g.is_nan(),
+        "C05 discount: discount factor is NaN for a finite exponent"
+    );
+    assert!(
+        g >= 0.0 && g <= 1.0,
+        "C05 discount: discount factor outside [0,1]"
+    );
 }
 
 /// discount_cum_regret with exponents in {-inf, 0, +inf}: positive entries scaled by the factor of
@@ -122,7 +155,10 @@ fn c08_discount_regret_special() {
     let it: u64 = kani::any();
     let p = RegretParams::new(a, b, 0.0, 0.0);
     p.discount_cum_regret(it, &mut r);
-    kani::cover!(ka == 2 && kb == 0 && r0[0] > 0.0 && r0[1] < 0.0, "CFR+ style: keep positive, forget negative");
+    kani::cover!(
+        ka == 2 && kb == 0 && r0[0] > 0.0 && r0[1] < 0.0,
+        "CFR+ style: keep positive, forget negative"
+    );
     kani::cover!(ka == 0 && kb == 2, "forget positive, keep negative");
     for i in 0..3 {
         let want = if r0[i] > 0.0 {
@@ -132,8 +168,10 @@ fn c08_discount_regret_special() {
         } else {
             r0[i]
         };
-        assert!(r[i].to_bits() == want.to_bits() || (r[i] == 0.0 && want == 0.0),
-            "C08 discount: regret not scaled by the factor of its sign's exponent");
+        assert!(
+            r[i].to_bits() == want.to_bits() || (r[i] == 0.0 && want == 0.0),
+            "C08 discount: regret not scaled by the factor of its sign's exponent"
+        );
     }
 }
 
@@ -173,17 +211,29 @@ fn c08_discount_average_strat() {
     kani::cover!(g == 2.0 && it == 3, "gamma 2 at iteration 3");
     if g == 0.0 {
         for i in 0..2 {
-            assert!(s[i].to_bits() == s0[i].to_bits(), "C08 average: gamma 0 must not discount the average strategy");
+            assert!(
+                s[i].to_bits() == s0[i].to_bits(),
+                "C08 average: gamma 0 must not discount the average strategy"
+            );
         }
     } else {
         unsafe {
             let t = it as f64;
-            assert!(POW.n == 1, "C08 average: the weight (t/(t+1))^gamma was not computed");
-            assert!(near(POW_BASE, t / (t + 1.0), 1e-12), "C08 average: discount base is not t/(t+1)");
+            assert!(
+                POW.n == 1,
+                "C08 average: the weight (t/(t+1))^gamma was not computed"
+            );
+            assert!(
+                near(POW_BASE, t / (t + 1.0), 1e-12),
+                "C08 average: discount base is not t/(t+1)"
+            );
             assert!(POW_EXP == g, "C08 average: discount exponent is not gamma");
             let k = POW.val[0];
             for i in 0..2 {
-                assert!(near(s[i], s0[i] * k, 1e-12), "C08 average: entries not all scaled by the same weight");
+                assert!(
+                    near(s[i], s0[i] * k, 1e-12),
+                    "C08 average: entries not all scaled by the same weight"
+                );
             }
         }
     }
@@ -217,11 +267,20 @@ fn c05_avg_strat_full() {
     kani::cover!(zero, "nothing accumulated");
     kani::cover!(s0[0] > 0.0 && s0[1] == 0.0, "partly accumulated");
     for i in 0..2 {
-        assert!(s[i] >= 0.0 && s[i] <= 1.0, "C05 profile: average strategy entry outside [0,1] or NaN");
+        assert!(
+            s[i] >= 0.0 && s[i] <= 1.0,
+            "C05 profile: average strategy entry outside [0,1] or NaN"
+        );
     }
-    assert!(s[0] > 0.0 || s[1] > 0.0, "C05 profile: average strategy has no positive entry");
+    assert!(
+        s[0] > 0.0 || s[1] > 0.0,
+        "C05 profile: average strategy has no positive entry"
+    );
     if zero {
-        assert!(s[0] == 0.5 && s[1] == 0.5, "C05 profile: empty accumulation must give the uniform strategy");
+        assert!(
+            s[0] == 0.5 && s[1] == 0.5,
+            "C05 profile: empty accumulation must give the uniform strategy"
+        );
     }
 }
 
@@ -234,10 +293,16 @@ fn c05_avg_strat_extremes3() {
     avg_strat(&mut s);
     let zero = s0[0] == 0.0 && s0[1] == 0.0 && s0[2] == 0.0;
     kani::cover!(zero, "nothing accumulated");
-    kani::cover!(s0[0] == 1e300 && s0[1] == 1e300 && s0[2] == 5e-324, "huge and tiny together");
+    kani::cover!(
+        s0[0] == 1e300 && s0[1] == 1e300 && s0[2] == 5e-324,
+        "huge and tiny together"
+    );
     let mut some = false;
     for i in 0..3 {
-        assert!(s[i] >= 0.0 && s[i] <= 1.0, "C05 profile: average strategy entry outside [0,1] or NaN");
+        assert!(
+            s[i] >= 0.0 && s[i] <= 1.0,
+            "C05 profile: average strategy entry outside [0,1] or NaN"
+        );
         if s[i] > 0.0 {
             some = true;
         }
@@ -245,7 +310,10 @@ fn c05_avg_strat_extremes3() {
     assert!(some, "C05 profile: average strategy has no positive entry");
     if zero {
         for i in 0..3 {
-            assert!(near(s[i], 1.0 / 3.0, 1e-15), "C05 profile: empty accumulation must give the uniform strategy");
+            assert!(
+                near(s[i], 1.0 / 3.0, 1e-15),
+                "C05 profile: empty accumulation must give the uniform strategy"
+            );
         }
     }
 }
@@ -262,10 +330,16 @@ fn c05_avg_strat_values() {
     kani::cover!(tot == 7, "sum not a power of two");
     if tot > 0 {
         for i in 0..3 {
-            assert!(near(s[i], k[i] as f64 / tot as f64, 1e-12), "C05 profile: average strategy is not c_i / sum");
+            assert!(
+                near(s[i], k[i] as f64 / tot as f64, 1e-12),
+                "C05 profile: average strategy is not c_i / sum"
+            );
         }
     }
-    assert!(near(s[0] + s[1] + s[2], 1.0, 1e-12), "C05 profile: average strategy does not sum to one");
+    assert!(
+        near(s[0] + s[1] + s[2], 1.0, 1e-12),
+        "C05 profile: average strategy does not sum to one"
+    );
 }
 
 /// RegretParams::new panics exactly on the documented inputs.
@@ -276,11 +350,18 @@ fn c05_params_new_accepts() {
     let g: f64 = kani::any();
     let w: f64 = kani::any();
     kani::assume(!a.is_nan() && !b.is_nan() && !w.is_nan() && g >= 0.0 && g != f64::INFINITY);
-    kani::cover!(a == f64::NEG_INFINITY && w == f64::NEG_INFINITY, "infinite exponents");
+    kani::cover!(
+        a == f64::NEG_INFINITY && w == f64::NEG_INFINITY,
+        "infinite exponents"
+    );
     let p = RegretParams::new(a, b, g, w);
-    assert!(p.pos_regret.to_bits() == a.to_bits() && p.neg_regret.to_bits() == b.to_bits()
-        && p.strat.to_bits() == g.to_bits() && p.no_positive.to_bits() == w.to_bits(),
-        "C08 params: constructor does not store (alpha, beta, gamma, weight) in this order");
+    assert!(
+        p.pos_regret.to_bits() == a.to_bits()
+            && p.neg_regret.to_bits() == b.to_bits()
+            && p.strat.to_bits() == g.to_bits()
+            && p.no_positive.to_bits() == w.to_bits(),
+        "C08 params: constructor does not store (alpha, beta, gamma, weight) in this order"
+    );
 }
 
 #[kani::proof]
@@ -292,23 +373,49 @@ fn c05_params_new_rejects() {
     kani::assume(a.is_nan() || b.is_nan() || w.is_nan() || !(g >= 0.0) || g == f64::INFINITY);
     kani::cover!(g.is_nan(), "NaN gamma");
     kani::cover!(g == f64::INFINITY, "infinite gamma");
-    kani::cover!(w.is_nan() && !a.is_nan() && !b.is_nan() && g == 1.0, "NaN weight only");
+    kani::cover!(
+        w.is_nan() && !a.is_nan() && !b.is_nan() && g == 1.0,
+        "NaN weight only"
+    );
     let _ = RegretParams::new(a, b, g, w);
-    assert!(false, "C05 params: constructor accepted a documented-invalid tuple");
+    assert!(
+        false,
+        "C05 params: constructor accepted a documented-invalid tuple"
+    );
 }
 
 /// The five presets and Default denote the documented tuples.
 #[kani::proof]
 fn c08_presets() {
     let inf = f64::INFINITY;
-    let eq = |p: RegretParams, a: f64, b: f64, g: f64, w: f64| p.pos_regret == a && p.neg_regret == b && p.strat == g && p.no_positive == w;
+    let eq = |p: RegretParams, a: f64, b: f64, g: f64, w: f64| {
+        p.pos_regret == a && p.neg_regret == b && p.strat == g && p.no_positive == w
+    };
     kani::cover!(true, "reached");
-    assert!(eq(RegretParams::vanilla(), inf, inf, 0.0, 0.0), "C08 presets: vanilla is not (inf, inf, 0, 0)");
-    assert!(eq(RegretParams::lcfr(), 1.0, 1.0, 1.0, inf), "C08 presets: lcfr is not (1, 1, 1, inf)");
-    assert!(eq(RegretParams::cfr_plus(), inf, -inf, 2.0, inf), "C08 presets: cfr_plus is not (inf, -inf, 2, inf)");
-    assert!(eq(RegretParams::dcfr(), 1.5, 0.0, 2.0, inf), "C08 presets: dcfr is not (1.5, 0, 2, inf)");
-    assert!(eq(RegretParams::dcfr_prune(), 1.5, 0.5, 2.0, inf), "C08 presets: dcfr_prune is not (1.5, 0.5, 2, inf)");
-    assert!(RegretParams::default() == RegretParams::dcfr(), "C08 presets: default is not dcfr");
+    assert!(
+        eq(RegretParams::vanilla(), inf, inf, 0.0, 0.0),
+        "C08 presets: vanilla is not (inf, inf, 0, 0)"
+    );
+    assert!(
+        eq(RegretParams::lcfr(), 1.0, 1.0, 1.0, inf),
+        "C08 presets: lcfr is not (1, 1, 1, inf)"
+    );
+    assert!(
+        eq(RegretParams::cfr_plus(), inf, -inf, 2.0, inf),
+        "C08 presets: cfr_plus is not (inf, -inf, 2, inf)"
+    );
+    assert!(
+        eq(RegretParams::dcfr(), 1.5, 0.0, 2.0, inf),
+        "C08 presets: dcfr is not (1.5, 0, 2, inf)"
+    );
+    assert!(
+        eq(RegretParams::dcfr_prune(), 1.5, 0.5, 2.0, inf),
+        "C08 presets: dcfr_prune is not (1.5, 0.5, 2, inf)"
+    );
+    assert!(
+        RegretParams::default() == RegretParams::dcfr(),
+        "C08 presets: default is not dcfr"
+    );
 }
 
 #[cfg(test)]
